@@ -265,7 +265,8 @@ theorem C12_pyimport_untouched_line (spans : Spans) (keys : List Line) (line : L
 /-- the names that are ever rewritten are dotted names listed on an earlier import line. -/
 theorem C12_pyimport_keys (spans : Spans) (keys : List Line) (line : Line) (k : Line)
     (hk : k ∈ (stepLine spans keys line).1) :
-    k ∈ keys ∨ (isImportLine spans line = true ∧ k ∈ importNames (lstrip line) ∧ hasDot k = true) := by
+    k ∈ keys ∨ (isImportLine spans line = true ∧ k ∈ importNames (lstrip (importPart spans line)) ∧
+      hasDot k = true) := by
   unfold stepLine at hk
   by_cases himp : isImportLine spans line = true
   · rw [if_pos himp] at hk
@@ -285,6 +286,25 @@ theorem C12_pyimport_literals_untouched (spans : Spans) (keys : List Line) (line
   rw [if_neg (by rw [himp]; exact Bool.false_ne_true)]
   obtain ⟨h1, h2⟩ := rewriteLine_spec (overlaps spans) keys line
   exact ⟨h1, fun s hs col hc1 hc2 => h2 col (guarded_of_span hs hc1 hc2)⟩
+
+/-- **the trailing comment of an import line stays a comment.**  On an import line whose comment starts
+at column `c` (first literal span that begins with `#`), the imported names are read from the text in
+front of the comment only, and the output line ends with the comment, character for character. -/
+theorem C12_pyimport_import_comment_kept (spans : Spans) (keys : List Line) (line : Line) (c : Nat)
+    (himp : isImportLine spans line = true) (hc : commentStart spans line = some c) :
+    (stepLine spans keys line).2 =
+      leading line ++ joinWith sepSemi ((importNames (lstrip (rstrip (line.take c)))).map newImport) ++
+        trailingComment spans line ∧
+    line.drop c <:+ (stepLine spans keys line).2 := by
+  have hpart : importPart spans line = rstrip (line.take c) := by unfold importPart; rw [hc]
+  have hout : (stepLine spans keys line).2 =
+      leading line ++ joinWith sepSemi ((importNames (lstrip (rstrip (line.take c)))).map newImport) ++
+        trailingComment spans line := by
+    unfold stepLine
+    rw [if_pos himp, hpart]
+  refine ⟨hout, ?_⟩
+  rw [hout]
+  exact (comment_suffix_trailing hc).trans (List.suffix_append _ _)
 
 /-! ### negative theorems -/
 
@@ -319,6 +339,17 @@ large.  The code as it is now keeps the line count (`C12_pyimport_line_count`). 
 theorem C12_unfixed_counterexample_import_split_shifts_lines :
     preprocess0 [L "import os, sys", L "x = 1"] = [L "import os", L "import sys", L "x = 1"] ∧
     preprocess [] [L "import os, sys", L "x = 1"] = [L "import os; import sys", L "x = 1"] := by decide +kernel
+
+/-- **REPAIRED finding C12/import-line-comment-swallowed** (frozen model of the pinned commit): the
+trailing comment of `import os.path  # c` becomes part of the imported name — the line handed to
+tree-sitter is `from os.path  # c import os_path  # c` (an import without names: the module is never
+imported) and the name to rewrite is `os.path  # c`, which never occurs again, so `os.path` in later
+lines stays.  The code as it is now reads the name in front of the comment and keeps the comment. -/
+theorem C12_unfixed_counterexample_import_trailing_comment :
+    preprocess0 [L "import os.path  # c", L "x = os.path.sep"] =
+      [L "from os.path  # c import os_path  # c", L "x = os.path.sep"] ∧
+    preprocess [[(16, 19)], []] [L "import os.path  # c", L "x = os.path.sep"] =
+      [L "from os.path import os_path  # c", L "x = os_path.sep"] := by decide +kernel
 
 /-- **OPEN finding C12/import-rewrite-scope-blind** (live model): the rewrite knows no scopes.  The
 same two lines of a function `g(conf)` are rewritten or not depending on whether an unrelated
